@@ -84,7 +84,17 @@ func runC15(src sim.Source, o Opts) *Result {
 	res.Case["prop"] = "C15"
 	capt := &world.Capture{}
 	cfg := world.Cfg{NoMethod: true, AutoOptions: true, GlobalTS: src.Intn("gts", 3), CacheSize: sim.Pick(src, "cache", []int{0, 1, 3})}
-	w, err := world.Build(cfg, fox.WithMiddleware(fox.CustomRecoveryWithLogHandler(capt, fox.DefaultHandleRecovery)))
+	// the function that answers a recovered panic: fox's default one, or a custom one that writes a page of its own
+	// (it must only be called when an answer is due: nothing written yet, connection not broken)
+	recoverFn := fox.DefaultHandleRecovery
+	if src.Intn("customrecovery", 3) == 0 {
+		recoverFn = func(c fox.Context, _ any) {
+			c.SetHeader("X-Recovered", "1")
+			http.Error(c.Writer(), "custom failure page", http.StatusInternalServerError)
+		}
+		res.inc("config_custom_recovery_func")
+	}
+	w, err := world.Build(cfg, fox.WithMiddleware(fox.CustomRecoveryWithLogHandler(capt, recoverFn)))
 	if err != nil {
 		res.Trouble = err.Error()
 		return res
